@@ -15,7 +15,8 @@ Inductive fsop :=
 | RenameTmpLog (b : Z)                (* os.Rename(tmp log, <b>.log): replaces an existing file *)
 | RenameTmpIndex (b : Z)              (* os.Rename(tmp index, <b>.index) *)
 | RemoveTmp                           (* RewriteSegment.Remove *)
-| CreateHead (b : Z) (v : ver).       (* openWriter of a new empty segment at NextOffset *)
+| CreateLog (b : Z) (v : ver)         (* openWriter of a new empty segment at NextOffset: the log file ... *)
+| CreateIdx (b : Z).                  (* ... then its index file *)
 
 Fixpoint upd_seg (l : list seg) (b : Z) (f : seg -> seg) : list seg :=
   match l with
@@ -56,7 +57,8 @@ Definition fs_exec (d : ddir) (o : fsop) : ddir :=
     | Some ix => mkDir (upd_seg (dsegs d) b (fun s => set_idx s (Some ix))) (mkTmp (tlog (dtmp d)) None)
     end
   | RemoveTmp => mkDir (dsegs d) (mkTmp None None)
-  | CreateHead b v => mkDir (ins_seg (mkSeg b v [] (Some (v, []))) (dsegs d)) (dtmp d)
+  | CreateLog b v => mkDir (ins_seg (mkSeg b v [] None) (dsegs d)) (dtmp d)
+  | CreateIdx b => mkDir (upd_seg (dsegs d) b (fun s => set_idx s (Some (sver s, [])))) (dtmp d)
   end.
 
 Definition fs_run (d : ddir) (prog : list fsop) : ddir := fold_left fs_exec prog d.
@@ -67,8 +69,9 @@ Definition prog_override (b : Z) : list fsop := [RemoveIndex b; RenameTmpLog b; 
 Definition prog_rebase (b b' : Z) : list fsop := [RenameTmpLog b'; RenameTmpIndex b'; RemoveIndex b; RemoveLog b].
 Definition prog_drop (b : Z) : list fsop := [RemoveTmp; RemoveIndex b; RemoveLog b].
 (* the writing segment, newest message deleted: the new empty head is created first (repair F8) *)
-Definition prog_head_tail_override (b n : Z) (v : ver) : list fsop := CreateHead n v :: prog_override b.
-Definition prog_head_all (b n : Z) (v : ver) : list fsop := [RemoveTmp; CreateHead n v; RemoveIndex b; RemoveLog b].
+Definition create_head (n : Z) (v : ver) : list fsop := [CreateLog n v; CreateIdx n].
+Definition prog_head_tail_override (b n : Z) (v : ver) : list fsop := create_head n v ++ prog_override b.
+Definition prog_head_all (b n : Z) (v : ver) : list fsop := RemoveTmp :: create_head n v ++ [RemoveIndex b; RemoveLog b].
 
 (* which program a Delete runs, decided exactly as Model.log_delete decides its outcome *)
 Section DeleteProg.
@@ -102,7 +105,7 @@ Definition delete_prog (st : lstate) (offs : list Z) : list fsop :=
               | [] => prog_head_all b nxt (cnewver c)
               | m0 :: _ =>
                 let tail := match last_opt deleted with Some m => moff m =? nxt - 1 | None => false end in
-                (if tail then [CreateHead nxt (cnewver c)] else [])
+                (if tail then create_head nxt (cnewver c) else [])
                   ++ (if moff m0 =? b then prog_override b else prog_rebase b (moff m0))
               end
             else
@@ -114,6 +117,18 @@ Definition delete_prog (st : lstate) (offs : list Z) : list fsop :=
         end
       end
     end
+  end.
+
+(* Publish: directory steps happen only on rollover (log.go Publish -> openWriter), decided as Model.log_publish does *)
+Definition publish_prog (st : lstate) : list fsop :=
+  match opened st with
+  | None => []
+  | Some c =>
+    if cro c then []
+    else match last_opt (segs st) with
+         | None => []
+         | Some hd => if needs_rollover c hd then create_head (idx_next hd (head_items hd)) (cnewver c) else []
+         end
   end.
 
 End DeleteProg.
